@@ -157,6 +157,18 @@ def main(prop, tier, vseed, replay=None):
                     viol_paths.append(runner.write_replay(prop, 'pooled_choice_frequency_far_from_probability',
                                       {'property': prop, 'code': 'pooled_choice_frequency_far_from_probability', 'tier': tier, 'spec': None,
                                        'witness': {'position_in_router_list': j, 'sum_observed_minus_expected': S_, 'variance': V_, 'z': z, 'runs': evaluated}}))
+    pooled = []
+    if prop == 'C09': pooled = [('class_change_position_%d' % j, 'C09.agg.CS%d' % j, 'C09.agg.CV%d' % j) for j in range(3)]
+    if prop == 'C13': pooled = [('baulking', 'C13.agg.S', 'C13.agg.V')]
+    for label, ks, kv in (pooled if replay is None else []):
+        S_, V_ = agg.get(ks, 0.0), agg.get(kv, 0.0)
+        if V_ > 25:
+            agg[prop + '.pooled_frequency_tests'] += 1
+            z = S_ / V_ ** 0.5
+            if abs(z) > 6.0:
+                viol_paths.append(runner.write_replay(prop, 'pooled_frequency_far_from_probability',
+                                  {'property': prop, 'code': 'pooled_frequency_far_from_probability', 'tier': tier, 'spec': None,
+                                   'witness': {'what': label, 'sum_observed_minus_expected': S_, 'variance': V_, 'z': z, 'runs': evaluated}}))
     open_k = taint.open_findings()
     for kid, n in tainted.items():
         if prop in open_k[kid]['properties']:
